@@ -1290,3 +1290,329 @@ Proof.
            destruct (valid_size s); [discriminate|injection H as <-; reflexivity]
        end.
 Qed.
+
+(* ------------------------------------------------------------------ totality of the value writers *)
+
+Lemma uleb_size_fuel_le f : forall v, uleb_size_fuel f v <= N.of_nat f.
+Proof.
+  induction f as [|f IH]; intros v; cbn [uleb_size_fuel]; [lia|].
+  destruct (N.shiftr v 7 =? 0); [lia|]. specialize (IH (N.shiftr v 7)). lia.
+Qed.
+
+Lemma uleb128_size_le v : uleb128_size v <= 10.
+Proof. apply (uleb_size_fuel_le 10). Qed.
+
+Lemma shiftr7_z z : Z.shiftr (Z.shiftr z 6) 1 = (z / 128)%Z.
+Proof. rewrite !Z.shiftr_div_pow2 by lia. rewrite Z.div_div by lia. reflexivity. Qed.
+
+Lemma write_sleb_fuel_total f : forall z, (0 < f)%nat ->
+  (- 2 ^ (7 * Z.of_nat f - 1) <= z < 2 ^ (7 * Z.of_nat f - 1))%Z ->
+  exists bs, write_sleb_fuel f z = Ok bs.
+Proof.
+  induction f as [|f IH]; intros z Hf Hz; [lia|]. cbn [write_sleb_fuel]. cbv zeta.
+  destruct ((Z.shiftr z 6 =? 0)%Z || (Z.shiftr z 6 =? -1)%Z) eqn:D; [eauto|].
+  rewrite shiftr7_z.
+  destruct f as [|f'].
+  - exfalso. change (7 * Z.of_nat 1 - 1)%Z with 6%Z in Hz.
+    rewrite Z.shiftr_div_pow2 in D by lia. change (2 ^ 6)%Z with 64%Z in *.
+    apply orb_false_iff in D. destruct D as [D1 D2]. apply Z.eqb_neq in D1. apply Z.eqb_neq in D2.
+    assert (z / 64 = 0 \/ z / 64 = -1)%Z; [|tauto].
+    assert (H0 := Z.div_mod z 64 ltac:(lia)). assert (H1 := Z.mod_pos_bound z 64 ltac:(lia)). lia.
+  - destruct (IH (z / 128)%Z) as [bs Hbs]; [lia| |rewrite Hbs; cbn; eauto].
+    replace (7 * Z.of_nat (S (S f')) - 1)%Z with (7 + (7 * Z.of_nat (S f') - 1))%Z in Hz by lia.
+    rewrite Z.pow_add_r in Hz by lia. change (2 ^ 7)%Z with 128%Z in Hz.
+    set (P := (2 ^ (7 * Z.of_nat (S f') - 1))%Z) in *.
+    assert (0 < P)%Z by (apply Z.pow_pos_nonneg; lia).
+    assert (H0 := Z.div_mod z 128 ltac:(lia)). assert (H1 := Z.mod_pos_bound z 128 ltac:(lia)). nia.
+Qed.
+
+Lemma write_sleb128_total z : (- 2 ^ 63 <= z < 2 ^ 63)%Z -> exists bs, write_sleb128 z = Ok bs.
+Proof.
+  intros H. apply write_sleb_fuel_total; [lia|]. change (7 * Z.of_nat 10 - 1)%Z with 69%Z.
+  assert (2 ^ 63 <= 2 ^ 69)%Z by (apply Z.pow_le_mono_r; lia). lia.
+Qed.
+
+(* the value ranges the Rust types guarantee (u8/u16/u32/u64/u128/i64 payloads, Vec lengths below
+   isize::MAX, a FileId below usize::MAX) plus: ids issued by the tables of this write exist *)
+Definition av_typed (cx : wcx) (v : aval) : Prop :=
+  match v with
+  | AvBlock bs | AvString bs => UnitWr.blen bs < 2 ^ 63
+  | AvUdata x | AvEncoding x | AvDecimalSign x | AvEndianity x | AvAccessibility x | AvVisibility x
+  | AvVirtuality x | AvLanguage x | AvAddressClass x | AvIdentifierCase x | AvCallingConvention x
+  | AvInline x | AvOrdering x => x < 2 ^ 64
+  | AvSdata z | AvImplicitConst z => (- 2 ^ 63 <= z < 2 ^ 63)%Z
+  | AvExprloc x => exists n bs, x_size x = Ok n /\ x_out x = Ok bs /\ n < 2 ^ 63
+  | AvFileIndex (Some i) => i < 2 ^ 64 - 1
+  | AvLocationListRef i => exists o, nth_error (wc_loc cx) i = Some o /\ fits o (wsz (wc_enc cx)) = None
+  | AvRangeListRef i => exists o, nth_error (wc_rng cx) i = Some o /\ fits o (wsz (wc_enc cx)) = None
+  | AvStringRef i => exists o, nth_error (wc_str cx) i = Some o /\ fits o (wsz (wc_enc cx)) = None
+  | AvLineStringRef i => exists o, nth_error (wc_lstr cx) i = Some o /\ fits o (wsz (wc_enc cx)) = None
+  | _ => True
+  end.
+
+Lemma write_udata_ok be v size : fits v size = None -> exists b, write_udata be v size = Ok b.
+Proof. intros H. assert (W := write_udata_fits be v size). now rewrite H in W. Qed.
+
+(* a well-typed value is written unless it is unencodable: Ok or the classified Err, nothing else *)
+Theorem encodable_is_ok_lemma dbg cx v :
+  av_typed cx v -> av_unencodable cx v = None -> exists ops, av_write dbg cx v = Ok ops.
+Proof.
+  destruct cx as [e be u uoff ents codes line lstr str rng loc].
+  destruct e as [ver fmt asz].
+  unfold av_unencodable, av_typed. cbn [wc_enc wc_line wc_loc wc_rng wc_str wc_lstr].
+  destruct v; intros T H; unfold av_write;
+    cbn [wc_enc wc_be wc_line wc_loc wc_rng wc_str wc_lstr]; unfold_asserts; case_ver ver; destruct fmt; asserts.
+  all: try (exfalso; lia).
+  all: try match goal with a : address |- _ => destruct a end.
+  all: try match goal with r : dref |- _ => destruct r end.
+  all: try match goal with l : option N |- _ => destruct l end.
+  all: try discriminate.
+  all: unfold wsz in *; cbn [e_ver e_fmt64 e_asz] in *.
+  all: try (eexists; reflexivity).
+  all: try match goal with
+       | H : fits ?x ?s = None |- context [write_udata ?be ?x ?s] =>
+           destruct (write_udata_ok be x s H) as [b Eb]; rewrite Eb; cbn [bind]; eauto
+       end.
+  all: try match goal with
+       | |- context [write_uleb128 ?x] =>
+           let Hb := fresh in
+           assert (Hb : x < 2 ^ 64) by (try assumption; try lia);
+           destruct (write_uleb128_total x Hb) as [b Eb]; rewrite Eb; cbn [bind]; eauto
+       end.
+  all: try match goal with
+       | |- context [write_sleb128 ?z] =>
+           destruct (write_sleb128_total z T) as [b Eb]; rewrite Eb; cbn [bind]; eauto
+       end.
+  all: try match goal with
+       | H : (if valid_size ?s then None else _) = None |- _ => destruct (valid_size s); [eauto|discriminate]
+       end.
+  all: try match goal with
+       | T : exists o, nth_error ?l ?i = Some o /\ _ |- _ =>
+           destruct T as [o [To Tf]]; unfold idx_get, unwrap; rewrite To; cbn [bind];
+           destruct (write_udata_ok be o _ Tf) as [b Eb]; rewrite Eb; cbn [bind]; eauto
+       end.
+  all: try (destruct T as [n0 [bs [E1 [E2 E3]]]]; rewrite E1; cbn [bind];
+            destruct (write_uleb128_total n0 ltac:(lia)) as [b Eb]; rewrite Eb; cbn [bind]; rewrite E2; cbn [bind]; eauto).
+  all: unfold file_raw; cbn [e_ver]; destruct (ver <=? 4);
+       [rewrite chk_add_ok by lia|]; cbn [bind];
+       match goal with |- context [write_uleb128 ?x] =>
+         destruct (write_uleb128_total x ltac:(lia)) as [b Eb]; rewrite Eb; cbn [bind]; eauto end.
+Qed.
+
+(* AttributeValue::size never panics on well-typed values, in either build mode *)
+Theorem av_size_no_panic_lemma dbg cx v : av_typed cx v -> av_size dbg (wc_enc cx) v <> Panic.
+Proof.
+  destruct cx as [e be u uoff ents codes line lstr str rng loc].
+  destruct e as [ver fmt asz].
+  unfold av_typed. cbn [wc_enc wc_line wc_loc wc_rng wc_str wc_lstr].
+  destruct v; intros T; unfold av_size; unfold_asserts; case_ver ver; destruct fmt; asserts.
+  all: try (exfalso; lia).
+  all: try discriminate.
+  all: try (assert (U := uleb128_size_le (UnitWr.blen bs)); rewrite chk_add_ok by lia; discriminate).
+  all: try (rewrite chk_add_ok by lia; discriminate).
+  all: try (destruct T as [n0 [bs [E1 [E2 E3]]]]; rewrite E1; cbn [bind];
+            assert (U := uleb128_size_le n0); rewrite chk_add_ok by lia; discriminate).
+  all: destruct f as [i|]; unfold file_raw; cbn [e_ver]; [destruct (ver <=? 4); [rewrite chk_add_ok by lia|]|]; discriminate.
+Qed.
+
+(* AttributeValue::write never panics on well-typed values: it returns bytes or an error *)
+Theorem av_write_no_panic_lemma dbg cx v : av_typed cx v -> av_write dbg cx v <> Panic.
+Proof.
+  intros T. destruct (av_unencodable cx v) as [er|] eqn:U.
+  - rewrite (unencodable_is_error_lemma dbg cx v er U). discriminate.
+  - destruct (encodable_is_ok_lemma dbg cx v T U) as [ops ->]. discriminate.
+Qed.
+
+(* ------------------------------------------------------------------ references that cannot be resolved *)
+
+Lemma patch_unit_refs_all_resolve dbg be unit unit_off entries w : forall refs sec sec',
+  patch_unit_refs dbg be unit unit_off entries w refs sec = Ok sec' ->
+  forall off id, In (off, id) refs -> exists v, unit_offset dbg unit unit_off entries id = Ok (Some v).
+Proof.
+  induction refs as [|[o i] r IH]; intros sec sec' H off id Hin; [destruct Hin|].
+  cbn [patch_unit_refs] in H.
+  apply bind_ok_inv in H. destruct H as [t [Et H]].
+  apply bind_ok_inv in H. destruct H as [v [Ev H]].
+  apply bind_ok_inv in H. destruct H as [sec1 [_ H]].
+  destruct Hin as [Hin|Hin].
+  - injection Hin as -> ->. destruct t as [v'|]; [eauto|discriminate].
+  - eapply IH; eassumption.
+Qed.
+
+(* a unit-relative reference to an entry that is not in the tree that gets written (deleted child, reserved
+   but never added, orphan) never yields output *)
+Theorem dangling_ref_is_error_lemma dbg e root st0 st be unit unit_off w refs sec off id :
+  calc dbg e root st0 = Ok st ->
+  (forall j y, nth_error (cs_entries st0) j = Some y -> y = 0) ->
+  In (off, id) refs -> ~ In (id_idx id) (die_ids root) ->
+  forall sec', patch_unit_refs dbg be unit unit_off (cs_entries st) w refs sec <> Ok sec'.
+Proof.
+  intros HC HZ Hin Hnot sec' HP.
+  destruct (patch_unit_refs_all_resolve _ _ _ _ _ _ _ _ _ HP _ _ Hin) as [v Ev].
+  destruct (unit_offset_value _ _ _ _ _ _ Ev) as [x [X1 [X2 _]]].
+  apply Hnot. eapply calc_nonzero_in_tree; eassumption.
+Qed.
+
+(* same for UnitTable::write_debug_info_fixups *)
+Lemma table_fixups_all_resolve dbg be units : forall fx info info',
+  table_fixups dbg be units fx info = Ok info' ->
+  forall f, In f fx ->
+  exists t o, nth_error units (fx_unit f) = Some t /\
+              debug_info_offset dbg (fx_unit f) (tu_entries t) (fx_entry f) = Ok (Some o).
+Proof.
+  induction fx as [|g r IH]; intros info info' H f Hin; [destruct Hin|].
+  cbn [table_fixups] in H.
+  apply bind_ok_inv in H. destruct H as [t [Et H]].
+  apply bind_ok_inv in H. destruct H as [o [Eo H]].
+  apply bind_ok_inv in H. destruct H as [v [Ev H]].
+  apply bind_ok_inv in H. destruct H as [i1 [_ H]].
+  destruct Hin as [<-|Hin].
+  - unfold unwrap in Et. destruct (nth_error units (fx_unit g)) as [t'|]; [|discriminate]. injection Et as ->.
+    destruct o as [o'|]; [|discriminate]. eauto.
+  - eapply IH; eassumption.
+Qed.
+
+(* ------------------------------------------------------------------ decoding what was written *)
+
+Lemma take_n_app (h rest : list byte) : take_n (length h) (h ++ rest) = Some (h, rest).
+Proof. induction h as [|b r IH]; cbn [length take_n app]; [reflexivity|now rewrite IH]. Qed.
+
+Lemma le_num_le_bytes n : forall v, le_num (le_bytes n v) = v mod 256 ^ N.of_nat n.
+Proof.
+  induction n as [|n IH]; intros v; cbn [le_bytes le_num].
+  - change (256 ^ N.of_nat 0) with 1. now rewrite N.mod_1_r.
+  - rewrite IH, b2n_n2b. replace (N.of_nat (S n)) with (1 + N.of_nat n) by lia.
+    rewrite N.pow_add_r. change (256 ^ 1) with 256.
+    rewrite N.mod_mul_r by (try discriminate; apply N.pow_nonzero; discriminate). reflexivity.
+Qed.
+
+Lemma fixed_num_enc_un n be v : fixed_num be (enc_un n be v) = v mod 256 ^ N.of_nat n.
+Proof.
+  unfold fixed_num, enc_un, be_bytes. destruct be; [rewrite rev_involutive|]; apply le_num_le_bytes.
+Qed.
+
+Lemma dec_fixed_enc_un n be v rest :
+  dec_fixed (N.of_nat n) be (enc_un n be v ++ rest) = Some (RU (v mod 256 ^ N.of_nat n), rest).
+Proof.
+  unfold dec_fixed. rewrite Nat2N.id. rewrite <- (enc_un_len n be v) at 1.
+  rewrite take_n_app. now rewrite fixed_num_enc_un.
+Qed.
+
+Lemma write_udata_dec be v size b rest :
+  write_udata be v size = Ok b -> dec_fixed size be (b ++ rest) = Some (RU (v mod 2 ^ 64), rest).
+Proof.
+  unfold write_udata. intros H.
+  destruct (size =? 1) eqn:E1.
+  { apply N.eqb_eq in E1. subst. destruct (v <? 256) eqn:L; [|discriminate]. injection H as <-.
+    apply N.ltb_lt in L. change 1 with (N.of_nat 1). rewrite dec_fixed_enc_un.
+    rewrite !N.mod_small; [reflexivity| |exact L]. eapply N.lt_trans; [exact L|reflexivity]. }
+  destruct (size =? 2) eqn:E2.
+  { apply N.eqb_eq in E2. subst. destruct (v <? two16) eqn:L; [|discriminate]. injection H as <-.
+    apply N.ltb_lt in L. change 2 with (N.of_nat 2). rewrite dec_fixed_enc_un.
+    rewrite !N.mod_small; [reflexivity| |exact L]. eapply N.lt_trans; [exact L|reflexivity]. }
+  destruct (size =? 4) eqn:E4.
+  { apply N.eqb_eq in E4. subst. destruct (v <? two32) eqn:L; [|discriminate]. injection H as <-.
+    apply N.ltb_lt in L. change 4 with (N.of_nat 4). rewrite dec_fixed_enc_un.
+    rewrite !N.mod_small; [reflexivity| |exact L]. eapply N.lt_trans; [exact L|reflexivity]. }
+  destruct (size =? 8) eqn:E8; [|discriminate].
+  apply N.eqb_eq in E8. subst. injection H as <-.
+  change 8 with (N.of_nat 8). now rewrite dec_fixed_enc_un.
+Qed.
+
+Lemma dec_cstr_app : forall bs rest, has_nul bs = false -> dec_cstr (bs ++ x00 :: rest) = Some (bs, rest).
+Proof.
+  induction bs as [|b r IH]; intros rest H; cbn [app dec_cstr].
+  - reflexivity.
+  - unfold has_nul in H. cbn [existsb] in H. apply orb_false_iff in H. destruct H as [H1 H2].
+    rewrite H1. fold (has_nul r) in H2. now rewrite (IH _ H2).
+Qed.
+
+(* signed LEB128 *)
+Lemma byte_hi_facts y : y < 256 ->
+  cont_bit (n2b (N.lor y 128)) = true /\ N.land (b2n (n2b (N.lor y 128))) 127 = y mod 128.
+Proof.
+  intros H.
+  assert (S := sweep_lt 256 (fun y =>
+    cont_bit (n2b (N.lor y 128)) && (N.land (b2n (n2b (N.lor y 128))) 127 =? y mod 128))).
+  specialize (S ltac:(vm_compute; reflexivity) y H). cbv beta in S.
+  apply andb_true_iff in S. destruct S as [A B]. apply N.eqb_eq in B. auto.
+Qed.
+
+Lemma land127_mod y : N.land y 127 = y mod 128.
+Proof. change 127 with (N.ones 7). now rewrite N.land_ones. Qed.
+
+Lemma z_mod256_low z : (Z.to_N (z mod 256)) mod 128 = Z.to_N (z mod 128).
+Proof.
+  assert (H1 := Z.mod_pos_bound z 256 ltac:(lia)). assert (H2 := Z.mod_pos_bound z 128 ltac:(lia)).
+  apply N2Z.inj. rewrite N2Z.inj_mod. rewrite !Z2N.id by lia. change (Z.of_N 128) with 128%Z.
+  clear H1 H2. Z.div_mod_to_equations. lia.
+Qed.
+
+Lemma write_sleb_fuel_dec f : forall z bs rest,
+  write_sleb_fuel f z = Ok bs ->
+  split_leb (bs ++ rest) = Some (bs, rest) /\
+  Z.of_N (uval bs) = (z mod 2 ^ (7 * Z.of_nat (length bs)))%Z /\
+  (- 2 ^ (7 * Z.of_nat (length bs) - 1) <= z < 2 ^ (7 * Z.of_nat (length bs) - 1))%Z /\
+  (0 < length bs)%nat.
+Proof.
+  induction f as [|f IH]; intros z bs rest H; cbn [write_sleb_fuel] in H; [discriminate|]. cbv zeta in H.
+  assert (Hb : Z.to_N (z mod 256) < 256).
+  { assert (H1 := Z.mod_pos_bound z 256 ltac:(lia)). lia. }
+  assert (Hx : Z.to_N (z mod 128) < 128).
+  { assert (H1 := Z.mod_pos_bound z 128 ltac:(lia)). lia. }
+  assert (M128 := Z.mod_pos_bound z 128 ltac:(lia)).
+  destruct ((Z.shiftr z 6 =? 0)%Z || (Z.shiftr z 6 =? -1)%Z) eqn:D.
+  - injection H as <-. rewrite land127_mod, z_mod256_low.
+    destruct (byte_low_facts _ Hx) as [A [B _]].
+    cbn [app split_leb uval length]. rewrite A, B. split; [reflexivity|].
+    change (7 * Z.of_nat 1)%Z with 7%Z. change (2 ^ 7)%Z with 128%Z. change (2 ^ (7 - 1))%Z with 64%Z.
+    rewrite Z.shiftr_div_pow2 in D by lia. change (2 ^ 6)%Z with 64%Z in D.
+    split; [lia|]. split; [|lia].
+    apply orb_true_iff in D. assert (H0 := Z.div_mod z 64 ltac:(lia)). assert (H1 := Z.mod_pos_bound z 64 ltac:(lia)).
+    destruct D as [D|D]; apply Z.eqb_eq in D; lia.
+  - apply bind_ok_inv in H. destruct H as [r [Er H]]. injection H as <-.
+    rewrite shiftr7_z in Er. destruct (IH _ _ rest Er) as [Sp [U [R Lr]]].
+    destruct (byte_hi_facts _ Hb) as [C L]. unfold CONT.
+    cbn [app split_leb uval length]. rewrite C, Sp, L, z_mod256_low. split; [reflexivity|].
+    replace (7 * Z.of_nat (S (length r)))%Z with (7 + 7 * Z.of_nat (length r))%Z by lia.
+    rewrite Z.pow_add_r by lia. change (2 ^ 7)%Z with 128%Z.
+    set (M := (2 ^ (7 * Z.of_nat (length r)))%Z) in *.
+    assert (HM : (0 < M)%Z) by (apply Z.pow_pos_nonneg; lia).
+    split.
+    + rewrite N2Z.inj_add, N2Z.inj_mul, U, Z2N.id by lia. change (Z.of_N 128) with 128%Z.
+      rewrite Z.rem_mul_r by lia. reflexivity.
+    + split; [|lia].
+      replace (7 + 7 * Z.of_nat (length r) - 1)%Z with (7 + (7 * Z.of_nat (length r) - 1))%Z by lia.
+      rewrite Z.pow_add_r by lia. change (2 ^ 7)%Z with 128%Z.
+      set (P := (2 ^ (7 * Z.of_nat (length r) - 1))%Z) in *.
+      assert (H0 := Z.div_mod z 128 ltac:(lia)). lia.
+Qed.
+
+Lemma write_sleb128_dec z bs rest :
+  write_sleb128 z = Ok bs -> dec_sleb (bs ++ rest) = Some (z, rest).
+Proof.
+  intros H. destruct (write_sleb_fuel_dec _ _ _ rest H) as [Sp [U [R Lr]]].
+  unfold dec_sleb. rewrite Sp. f_equal. f_equal. unfold sval.
+  set (k := length bs) in *.
+  assert (E7 : 7 * N.of_nat k - 1 = Z.to_N (7 * Z.of_nat k - 1)) by lia.
+  assert (P1 : Z.of_N (2 ^ (7 * N.of_nat k - 1)) = (2 ^ (7 * Z.of_nat k - 1))%Z).
+  { rewrite N2Z.inj_pow. f_equal. lia. }
+  assert (P2 : Z.of_N (2 ^ (7 * N.of_nat k)) = (2 ^ (7 * Z.of_nat k))%Z).
+  { rewrite N2Z.inj_pow. f_equal. lia. }
+  assert (HP : (2 ^ (7 * Z.of_nat k) = 2 * 2 ^ (7 * Z.of_nat k - 1))%Z).
+  { replace (7 * Z.of_nat k)%Z with (1 + (7 * Z.of_nat k - 1))%Z at 1 by lia. rewrite Z.pow_add_r by lia. reflexivity. }
+  set (Q := (2 ^ (7 * Z.of_nat k - 1))%Z) in *.
+  assert (HQ : (0 < Q)%Z) by (apply Z.pow_pos_nonneg; lia).
+  rewrite HP in U.
+  assert (Hm : (z mod (2 * Q) = if 0 <=? z then z else z + 2 * Q)%Z).
+  { destruct (0 <=? z)%Z eqn:Sg.
+    - apply Z.mod_small. lia.
+    - rewrite <- (Z.mod_add z 1 (2 * Q)) by lia. rewrite Z.mul_1_l. apply Z.mod_small. lia. }
+  rewrite Hm in U.
+  destruct (uval bs <? 2 ^ (7 * N.of_nat k - 1)) eqn:Lt.
+  - apply N.ltb_lt in Lt. assert (Lt' : (Z.of_N (uval bs) < Q)%Z) by (rewrite <- P1; lia).
+    destruct (0 <=? z)%Z eqn:Sg; lia.
+  - apply N.ltb_ge in Lt. assert (Lt' : (Q <= Z.of_N (uval bs))%Z) by (rewrite <- P1; lia).
+    rewrite P2, HP. destruct (0 <=? z)%Z eqn:Sg; lia.
+Qed.
+
